@@ -820,6 +820,20 @@ func newStringMap(keyType, valueType Type, in []Value) Value {
 	return Value{t: mapType(keyType, valueType), value: m}
 }
 
+// dropKey returns keys without the stale entry a Delete left behind for key, so
+// that a re-inserted key is listed (and ranged over) only once. It copies, as a
+// running range may still hold the old slice.
+func dropKey[K comparable](keys []K, key K) []K {
+	for i, k := range keys {
+		if k == key {
+			res := make([]K, 0, len(keys))
+			res = append(res, keys[:i]...)
+			return append(res, keys[i+1:]...)
+		}
+	}
+	return keys
+}
+
 type stringMap struct {
 	Object
 	valueType Type
@@ -840,6 +854,9 @@ func (m *stringMap) Get(k Value) (Value, bool) {
 func (m *stringMap) Set(k, v Value) {
 	key := string(k.value.(stringT))
 	if _, ok := m.data[key]; !ok {
+		if len(m.keys) > len(m.data) {
+			m.keys = dropKey(m.keys, key)
+		}
 		m.keys = append(m.keys, key)
 	}
 	m.data[key] = v.assign(m.valueType)
@@ -920,6 +937,9 @@ func (m *numericMap) Get(k Value) (Value, bool) {
 func (m *numericMap) Set(k, v Value) {
 	key := k.num
 	if _, ok := m.data[key]; !ok {
+		if len(m.keys) > len(m.data) {
+			m.keys = dropKey(m.keys, key)
+		}
 		m.keys = append(m.keys, key)
 	}
 	m.data[key] = v.assign(m.valueType)
